@@ -240,6 +240,10 @@ impl<F> FnGraph<F> {
                 fn_ready_rx.poll_recv(context).map(|fn_id| {
                     fn_id.map(|fn_id| {
                         let r#fn = &graph[fn_id];
+                        #[cfg(feature = "verif_hooks")]
+                        crate::verif_hooks::emit(crate::verif_hooks::HookEvent::Handout(
+                            fn_id.index(),
+                        ));
                         FnRef {
                             fn_id,
                             r#fn,
@@ -2183,6 +2187,8 @@ fn poll_and_track_fn_ready_common(
         fn_ready_rx.poll_recv(context).map(|fn_id_opt| {
             fn_id_opt.inspect(|&fn_id| {
                 fn_ids_processed.push(fn_id);
+                #[cfg(feature = "verif_hooks")]
+                crate::verif_hooks::emit(crate::verif_hooks::HookEvent::Handout(fn_id.index()));
             })
         })
     })
@@ -2221,6 +2227,10 @@ fn poll_and_track_fn_ready<'f>(
 
                 if let Some(fn_id) = fn_id {
                     fn_ids_processed.push(fn_id);
+                    #[cfg(feature = "verif_hooks")]
+                    crate::verif_hooks::emit(crate::verif_hooks::HookEvent::Handout(
+                        fn_id.index(),
+                    ));
                 }
 
                 futures::future::ready(Some(fn_id_poll_outcome))
